@@ -244,7 +244,7 @@ func runRef(seed uint64, cfg *C19Config, prog []Op, st *C19Stats) ([]Op, []stepR
 }
 
 // independentResult: operations whose result (without a reuse or unsafe option) is documented as a tensor of its own.
-var independentResult = map[string]bool{"NewOpt": true, "SoftMax": true, "LogSoftMax": true, "SoftMaxB": true, "LogSoftMaxB": true, "SafeT": true, "PkgT": true, "Materialize": true, "PkgTranspose": true, "Clone": true, "Clamp": true, "Apply": true,
+var independentResult = map[string]bool{"NewOpt": true, "SVD": true, "CSRDense": true, "DenseDiag": true, "SoftMax": true, "LogSoftMax": true, "SoftMaxB": true, "LogSoftMaxB": true, "SafeT": true, "PkgT": true, "Materialize": true, "PkgTranspose": true, "Clone": true, "Clamp": true, "Apply": true,
 	"Reduce": true, "Sum": true, "Max": true, "Min": true, "PkgSum": true, "Norm": true, "Argmax": true, "Argmin": true,
 	"MatVecMul": true, "MatMul": true, "Outer": true, "TensorMul": true, "Contract": true, "Dot": true,
 	"Concat": true, "PkgConcat": true, "Stack": true, "Hstack": true, "Vstack": true, "Repeat": true, "PkgRepeat": true,
